@@ -472,7 +472,7 @@ func (w *walker) varUse(id *ast.Ident, v *types.Var, mode string) {
 		kind = "wr"
 	}
 	w.n.Sites = append(w.n.Sites, site{Where: w.where(id.Pos()), Loc: baseKey(dn.Key) + "$" + v.Name(), Kind: kind,
-		Held: toks(w.held), pos: id.Pos(), varObj: v})
+		Held: toks(w.held), Lost: w.lostNow(), pos: id.Pos(), varObj: v})
 }
 
 func (w *walker) varContents(id *ast.Ident, v *types.Var, kind string, pos token.Pos) {
@@ -481,7 +481,7 @@ func (w *walker) varContents(id *ast.Ident, v *types.Var, kind string, pos token
 		return
 	}
 	w.n.Sites = append(w.n.Sites, site{Where: w.where(pos), Loc: baseKey(dn.Key) + "$" + v.Name() + "[]", Kind: kind,
-		Held: toks(w.held), pos: pos, varObj: v})
+		Held: toks(w.held), Lost: w.lostNow(), pos: pos, varObj: v})
 }
 
 // noteCaptures records, for every variable of an enclosing function that the literal mentions,
@@ -781,7 +781,7 @@ func (w *walker) invoke(fv *funcVal, p *prepared, extra []tok) *aval {
 	case fv.lit != nil:
 		n := fv.lit
 		w.d.analyze(n)
-		w.n.Calls = append(w.n.Calls, edge{Where: at, Callee: n, Held: append(toks(w.held), extra...)})
+		w.n.Calls = append(w.n.Calls, edge{Where: at, Callee: n, Held: append(toks(w.held), extra...), Lost: w.lostNow()})
 		for _, h := range n.netAcq {
 			w.acquire(h.t, h.param, h.of)
 		}
@@ -805,7 +805,7 @@ func (w *walker) invoke(fv *funcVal, p *prepared, extra []tok) *aval {
 		// a function supplied by the client
 		if w.d.cfg.WrappedCalls {
 			loc := baseKey(fv.opNode.Key) + "$" + fv.opaque.Name() + "()"
-			w.n.Sites = append(w.n.Sites, site{Where: at, Loc: loc, Kind: "wr", Held: append(toks(w.held), extra...), pos: p.pos,
+			w.n.Sites = append(w.n.Sites, site{Where: at, Loc: loc, Kind: "wr", Held: append(toks(w.held), extra...), Lost: w.lostNow(), pos: p.pos,
 				Note: "call of the wrapped (client supplied) function"})
 		}
 		if fv.opNode == w.n {
@@ -875,7 +875,7 @@ func (w *walker) callFn(fn *types.Func, p *prepared, extra []tok) *aval {
 			if fn.Name() == "CompareAndSwap" && len(p.ce.Args) == 2 && types.ExprString(p.ce.Args[0]) != types.ExprString(p.ce.Args[1]) {
 				kind = "latchset"
 			}
-			w.n.Sites = append(w.n.Sites, site{Where: at, Loc: ln, Kind: kind, Held: append(toks(w.held), extra...), pos: p.pos,
+			w.n.Sites = append(w.n.Sites, site{Where: at, Loc: ln, Kind: kind, Held: append(toks(w.held), extra...), Lost: w.lostNow(), pos: p.pos,
 				Note: "operation on the publication flag " + ln})
 		}
 	}
@@ -1055,7 +1055,7 @@ func (w *walker) callTarget(t *types.Func, p *prepared, extra []tok) *aval {
 		}
 	}
 	d.analyze(n)
-	w.n.Calls = append(w.n.Calls, edge{Where: at, Callee: n, Held: append(toks(w.held), extra...), Foreign: p.recvForeign})
+	w.n.Calls = append(w.n.Calls, edge{Where: at, Callee: n, Held: append(toks(w.held), extra...), Lost: w.lostNow(), Foreign: p.recvForeign})
 	if n.analyzing {
 		return nil // recursion: no summary yet (the repository's recursive helpers are lock-neutral)
 	}
